@@ -273,7 +273,10 @@ fn geometry(r: &Run) {
         }
     }
     for c in 0..32usize {
-        let mut lib: Vec<usize> = hooks::pad_column_to_wires(c).map(|w| w % 256).collect();
+        let mut lib: Vec<usize> = hooks::pad_column_to_wires(c).collect();
+        if lib.iter().any(|&w| w >= 256) {
+            fail = Some(format!("pad column {c} is given the wire indices {lib:?}: not anode wires"));
+        }
         lib.sort_unstable();
         owners[c].sort_unstable();
         if lib != owners[c] {
